@@ -878,6 +878,8 @@ V('C15', 'unfinalize', SIM, "    def is_finalized(self) -> bool:\n        \"\"\"
 E('C15', 'gate-alias', BLK, "        self.circuit.check_not_finalized()\n        if self.inputs:\n", "        circuit = self.circuit\n        circuit.check_not_finalized()\n        if self.inputs:\n")
 
 # ----------------------------------------------------------------------------- C03
+V('C03', 'f14-reverted', FSM, "            self._fsm_event_active = False\n            self._next_event = None     # could be left over after an exception\n",
+  "            self._fsm_event_active = False\n", 'R03.5')
 V('C03', 'f3-reverted', FSM, """                    etype, data, newstate = self._next_event
                     self._next_event = None
                     # from now on the actions are caused by the chained event
